@@ -140,12 +140,21 @@ func (s *splitter) Start(ckpt *snapshotpb.SourceCheckpoint) error {
 		if err != nil {
 			return err
 		}
-		s.g.c.observe(Obs{Kind: "splitter.start", Gen: s.g.n, Ckpt: ckpt.CheckpointId, Cursors: cursors, Dups: dups})
+		s.g.c.observe(Obs{Kind: "splitter.start", Gen: s.g.n, Ckpt: ckpt.CheckpointId, Cursors: cursors, Dups: dups, Nodes: s.labels()})
 	} else {
-		s.g.c.observe(Obs{Kind: "splitter.start", Gen: s.g.n})
+		s.g.c.observe(Obs{Kind: "splitter.start", Gen: s.g.n, Nodes: s.labels()})
 	}
 	ids := append([]string(nil), s.srIDs...)
-	sort.Slice(ids, func(i, j int) bool { return s.g.srIndex(ids[i]) < s.g.srIndex(ids[j]) })
+	// runner order = the order of their workers' operators in the assembly (worker i = "op<i>" + "sr<i>"), so that
+	// position p of an assembly is one worker for both halves; before any operator was deployed: the identity order
+	rank := func(id string) int {
+		i := s.g.srIndex(id)
+		if p := s.g.posOfWorker(i); p >= 0 {
+			return p
+		}
+		return i
+	}
+	sort.SliceStable(ids, func(i, j int) bool { return rank(ids[i]) < rank(ids[j]) })
 	assign := map[string][]*workerpb.SourceSplit{}
 	for _, id := range ids {
 		assign[id] = nil
@@ -157,6 +166,16 @@ func (s *splitter) Start(ckpt *snapshotpb.SourceCheckpoint) error {
 	}
 	s.hooks.AssignSplits(assign)
 	return nil
+}
+
+// labels of the assembly's runners, sorted
+func (s *splitter) labels() []string {
+	var out []string
+	for _, id := range s.srIDs {
+		out = append(out, s.g.label(id))
+	}
+	sort.Strings(out)
+	return out
 }
 
 func (s *splitter) Close() error                                          { return nil }
